@@ -276,3 +276,7 @@ mod tests {
         Ok(())
     }
 }
+
+#[cfg(kani)]
+#[path = "/verif/harness/cram/rans_nx16_encode.rs"]
+mod verif_kani;
